@@ -18,6 +18,10 @@ type LFile struct {
 	JSON bool   `json:"json,omitempty"` // rendered as a stream of JSON objects (path ends in .json)
 	Link bool   `json:"link,omitempty"` // stored outside the directory and reached through a symlink
 	List bool   `json:"list,omitempty"` // its documents are wrapped into one `kind: List`
+	// Dress: the same documents written the way another editor or tool writes them (YAML files only):
+	// 1 a leading separator and a comment header, 2 doubled separators (empty documents in between) and a
+	// trailing separator, 3 CRLF line endings
+	Dress int `json:"dress,omitempty"`
 }
 
 // Layout assigns every document of a resource set to a file and a position.
@@ -86,6 +90,9 @@ func (l Layout) fs(prefix string, docs []Doc) []FSEntry {
 				text = t
 			}
 		}
+		if !f.JSON && !f.List {
+			text = dress(text, f.Dress)
+		}
 		if f.JSON {
 			if t, ok := joinDocsJSON(docs, f.Docs); ok {
 				text = t
@@ -104,6 +111,18 @@ func (l Layout) fs(prefix string, docs []Doc) []FSEntry {
 		res = append(res, FSEntry{Path: filepath.Join(prefix, path), Text: text})
 	}
 	return res
+}
+
+func dress(text string, how int) string {
+	switch how {
+	case 1:
+		return "---\n# exported by tooling\n" + text
+	case 2:
+		return strings.ReplaceAll(text, "\n---\n", "\n---\n---\n") + "---\n"
+	case 3:
+		return strings.ReplaceAll(text, "\n", "\r\n")
+	}
+	return text
 }
 
 // canonicalLayout: one file per document, in generation order.
@@ -147,7 +166,7 @@ func randomLayout(r *rng, n int) Layout {
 		}
 		ext := pick(r, layoutExts)
 		name := fmt.Sprintf("%s%02d%s", string(rune('a'+r.intn(26))), len(l), ext)
-		l = append(l, LFile{Path: filepath.Join(pick(r, layoutDirs), name), Docs: cur, JSON: ext == ".json", Link: r.chance(1, 8), List: r.chance(1, 6)})
+		l = append(l, LFile{Path: filepath.Join(pick(r, layoutDirs), name), Docs: cur, JSON: ext == ".json", Link: r.chance(1, 8), List: r.chance(1, 6), Dress: []int{0, 0, 0, 0, 0, 1, 2, 3}[r.intn(8)]})
 		cur = []int{}
 	}
 	for k, i := range p {
@@ -175,7 +194,7 @@ func (l Layout) restrict(keep []int) Layout {
 			}
 		}
 		if len(d) > 0 {
-			res = append(res, LFile{Path: f.Path, Docs: d, JSON: f.JSON, Link: f.Link, List: f.List})
+			res = append(res, LFile{Path: f.Path, Docs: d, JSON: f.JSON, Link: f.Link, List: f.List, Dress: f.Dress})
 		}
 	}
 	return res
